@@ -1,2 +1,11 @@
-"""Additional Gen/*.lean generators contributed by property groups: name -> fn(repo) -> source."""
+"""Collects additional Gen/*.lean generators: every harness/gen_<group>.py that defines
+GENERATORS = {"File.lean": fn(repo_path) -> lean_source}."""
+import importlib
+from pathlib import Path
+
 GENERATORS = {}
+for _p in sorted(Path(__file__).resolve().parent.glob("gen_*.py")):
+    if _p.stem == "gen_extra":
+        continue
+    _m = importlib.import_module(f"harness.{_p.stem}")
+    GENERATORS.update(getattr(_m, "GENERATORS", {}))
